@@ -142,7 +142,7 @@ def run(ctx):
         if b >= 1 and len(ys) >= 8:
             sel_ = list(range(0, len(ys), max(1, len(ys) // 24)))[:24]
             ysub = yt[sel_].reshape(2, -1)
-            nvs = torch.tensor([rng.choice([1e-2, 0.1, 0.7, 3.0, 40.0]) for _ in range(ysub.numel())]).reshape(ysub.shape)
+            nvs = torch.tensor([rng.choice([1e-3, 1e-2, 0.1, 0.7, 3.0, 40.0, 1e3]) for _ in range(ysub.numel())]).reshape(ysub.shape)
             try:
                 st = dem(ysub, noise_var=nvs).reshape(ysub.numel(), -1)
                 ref = torch.stack([dem(ysub.reshape(-1)[i:i + 1].reshape(1, 1), noise_var=float(nvs.reshape(-1)[i])).reshape(-1) for i in range(ysub.numel())])
